@@ -47,6 +47,14 @@ P2 ==
     /\ dev = Cfg(Named(a, DevNames), [n \in Used(a, {"g0", "g1"}) |-> IF n = "g0" THEN da ELSE db], NoFn, AddrVal, SvcVal)
     /\ tgt = Cfg(Named(IF rs THEN Resvc(b) ELSE b, TgtNames), [n \in Used(b, {"g0", "g1"}) |-> IF n = "g0" THEN ta ELSE tb], NoFn, AddrVal, SvcVal)
 
+(* P5: the vsys holds g0 AND g0-1 (left by an earlier approve that had to rename a clashing group); the target *)
+(* again has g0 / g1 with any contents: a further rename must not pick a name that is in use                 *)
+P5 ==
+  \E a \in InjSeqs(GBodies("g0", "g0-1"), 2), b \in InjSeqs(GBodies("g0", "g1"), 2), da, db, ta, tb \in Members :
+    /\ Used(a, {"g0", "g0-1"}) = {"g0", "g0-1"}
+    /\ dev = Cfg(Named(a, DevNames), [n \in Used(a, {"g0", "g0-1"}) |-> IF n = "g0" THEN da ELSE db], NoFn, AddrVal, SvcVal)
+    /\ tgt = Cfg(Named(b, TgtNames), [n \in Used(b, {"g0", "g1"}) |-> IF n = "g0" THEN ta ELSE tb], NoFn, AddrVal, SvcVal)
+
 (* P4: ties (C16): the vsys holds two or three identical address-groups that no rule uses; the target *)
 (* adds or rewrites rules whose groups may have exactly these members                                 *)
 Spare(ns, ms) == [n \in (IF ns = 2 THEN {"ga", "gb"} ELSE {"ga", "gb", "gc"}) |-> ms]
@@ -146,7 +154,7 @@ M3 ==
                          merged |-> Cfg(prea \o v4a \o appa, NoFn, NoFn, AddrValM, SvcVal) @@
                                     [v2 |-> Cfg(preb \o v4b, NoFn, NoFn, AddrValM, SvcVal)]]]
 
-Init == CASE Fam = "M3" -> M3 [] Fam = "P9" -> P9 [] Fam = "P8" -> P8 [] Fam = "P4" -> P4 [] Fam = "M2" -> M2 [] Fam = "M1" -> M1 [] Fam = "P7" -> P7 [] Fam = "P1" -> P1 [] Fam = "P2" -> P2 [] Fam = "P3" -> P3
+Init == CASE Fam = "P5" -> P5 [] Fam = "M3" -> M3 [] Fam = "P9" -> P9 [] Fam = "P8" -> P8 [] Fam = "P4" -> P4 [] Fam = "M2" -> M2 [] Fam = "M1" -> M1 [] Fam = "P7" -> P7 [] Fam = "P1" -> P1 [] Fam = "P2" -> P2 [] Fam = "P3" -> P3
 Next == UNCHANGED <<dev, tgt>>
 HasTie == \E g, h \in DOMAIN dev.groups : g # h /\ dev.groups[g] = dev.groups[h]
 Out == PrintT(<<"VOUT", ToJson([fam |-> Fam, dev |-> dev, tgt |-> tgt, tie |-> HasTie])>>)
